@@ -107,6 +107,17 @@ func c09Child(args []string) int {
 			return 3
 		}
 	}
+	if nextFile == "-" {
+		// start only: the faults are injected into the start itself
+		os.Stdout.WriteString("BEGIN\n")
+		tm := sidecar.NewTargetsManager(dir, prometheus.NewRegistry(), h1Quiet())
+		if err := tm.Load(); err != nil {
+			os.Stdout.WriteString("LOADERR " + strings.ReplaceAll(err.Error(), "\n", " ") + "\n")
+			return 4 // cmd/kvass panics here
+		}
+		os.Stdout.WriteString("ACK\nLOADED " + fmt.Sprint(nTargets(tm.TargetsInfo().Targets)) + "\n")
+		return 0
+	}
 	var next map[string][]*target.Target
 	b, err := os.ReadFile(nextFile)
 	if err != nil {
@@ -500,6 +511,86 @@ func init() {
 						}, map[string]interface{}{"syscall": sp[0], "occurrence": sp[1], "inject": inj}, kind)
 					}
 					r.Outcome(fmt.Sprintf("%s/%s/%v", sp[0], inj, strings.Contains(out, "NACK")))
+				}
+			}
+			// (4) faults during the START that follows the acknowledged update: every store-directory system call
+			// of an un-faulted start fails (EIO, EACCES) or the process is killed there; whatever that start does
+			// (cmd/kvass panics when Load fails), the starts after it resume the acknowledged assignment
+			{
+				freshNext := func() string {
+					d := filepath.Join(base, "run")
+					os.RemoveAll(d)
+					os.MkdirAll(d, 0o755)
+					os.WriteFile(filepath.Join(d, "kvass-shard.json"), nextBytes, 0o755)
+					return d
+				}
+				startTrace := func() []string {
+					d := freshNext()
+					tf := filepath.Join(base, "trace-start.txt")
+					os.Remove(tf)
+					out, _ := runChild(d, "-", -1, []string{"-f", "-y", "-e", "trace=openat,read,pread64,write,pwrite64,fsync,fdatasync,ftruncate,rename,renameat,renameat2,unlinkat,close,fchmod,fchmodat,newfstatat,fstat", "-o", tf})
+					if !strings.Contains(out, "LOADED") {
+						chk.Fatalf("traced un-faulted start failed: %s", out)
+					}
+					b, _ := os.ReadFile(tf)
+					var pts []string
+					count := map[string]int{}
+					begun := false
+					for _, ln := range strings.Split(string(b), "\n") {
+						m := straceLine.FindStringSubmatch(ln)
+						if m == nil {
+							continue
+						}
+						key := m[2]
+						count[key]++
+						if strings.Contains(ln, `"BEGIN\n"`) {
+							begun = true
+							continue
+						}
+						if !begun || strings.Contains(ln, `"ACK\n`) {
+							continue
+						}
+						if strings.Contains(m[3], d) {
+							pts = append(pts, fmt.Sprintf("%s:%d", key, count[key]))
+						}
+					}
+					return pts
+				}
+				sp1, sp2 := startTrace(), startTrace()
+				if strings.Join(sp1, ",") != strings.Join(sp2, ",") {
+					chk.Fatalf("HARNESS-NONDETERMINISM: syscall trace of the start differs between two runs: %v vs %v", sp1, sp2)
+				}
+				r.Counters["start_store_syscalls_"+pr.next] = int64(len(sp1))
+				for _, pt := range sp1 {
+					sp := strings.Split(pt, ":")
+					for _, inj := range []string{"signal=KILL", "error=EIO", "error=EACCES"} {
+						d := freshNext()
+						tf := filepath.Join(base, "trace-start-inj.txt")
+						os.Remove(tf)
+						out, _ := runChild(d, "-", -1, []string{"-f", "-y", "-e", "trace=" + sp[0], "-e", fmt.Sprintf("inject=%s:%s:when=%s", sp[0], inj, sp[1]), "-o", tf})
+						r.States++
+						r.Transitions++
+						r.Nontrivial++
+						fault := map[string]interface{}{"during": "start", "syscall": sp[0], "occurrence": sp[1], "inject": inj}
+						for round := 0; round < 2; round++ {
+							l := c09LoadDir(d)
+							rp := &c09Replay{Property: "C09", Clause: "resume-exactly", Prev: pr.next, Next: "(restart only)", Fault: fault, Child: out, Loaded: map[string]interface{}{"err": l.Err, "n": l.N}}
+							kind := "killed"
+							if inj != "signal=KILL" {
+								kind = "syscall-error"
+							}
+							if l.Err != "" {
+								r.Violate("C09:start-fails:after-faulted-start:"+kind, "next-start-succeeds", fmt.Sprintf("%s acknowledged, a start hit by %v, then the next start fails: %s", pr.next, fault, l.Err), idx, rp)
+							} else if l.Targets != canonTargets(nextT) {
+								shape := "partial"
+								if l.N == 0 {
+									shape = "wrongly-empty"
+								}
+								r.Violate("C09:ack-lost:after-faulted-start:"+kind+":"+shape, "resume-exactly", fmt.Sprintf("%s acknowledged, a start hit by %v (%s), then the next start resumes %d targets", pr.next, fault, strings.TrimSpace(strings.Replace(out, "BEGIN", "", 1)), l.N), idx, rp)
+							}
+						}
+						r.Outcome(fmt.Sprintf("start/%s/%s/%v", sp[0], inj, strings.Contains(out, "LOADERR")))
+					}
 				}
 			}
 			if len(r.Samples) < 3 {
